@@ -290,6 +290,8 @@ func vWalkInv(label string, c *Collection, nloc *nodeLoc, lo, hi []byte, heap bo
 	return num, byt
 }
 
+var vCmpDefault KeyCompare = bytes.Compare
+
 func vReverseCompare(a, b []byte) int { return bytes.Compare(b, a) }
 
 // ------------------------------------------------------------------ pre-state
